@@ -198,7 +198,7 @@ def intron_key(exons):
 
 def gen_annotation(src, n_chroms=(1, 3), genes_per_chrom=(1, 3), iso_per_gene=(1, 4), sep=40, max_exons=7,
                    overlap_p=0.25, micro_intron_p=0.0, chrom_names=None, edits=None, min_chrom_len=3000,
-                   canon_classes=("canon",), tail_margin=(600, 3000)):
+                   canon_classes=("canon",), tail_margin=(600, 3000), exon_len=(80, 500), intron_len=(150, 2500)):
     """Returns scenario skeleton: chroms, genes, overrides (splice dinucleotides).  With sep>0 all distinct annotated
     splice-site positions on a chromosome are >= sep apart ('well-separated' mode of the design)."""
     nch = src.int(*n_chroms)
@@ -222,13 +222,14 @@ def gen_annotation(src, n_chroms=(1, 3), genes_per_chrom=(1, 3), iso_per_gene=(1
                 start = pos
             base = None
             for attempt in range(12):
-                cand = gen_chain(src, start + attempt * (sep + 7), nex, micro_intron_p=micro_intron_p)
+                cand = gen_chain(src, start + attempt * (sep + 7), nex, micro_intron_p=micro_intron_p,
+                                 exon_len=exon_len, intron_len=intron_len)
                 if sep == 0 or (_self_ok(cand, sep) and _sites_ok(_sites(cand), sites, sep)):
                     base = cand
                     break
             if base is None:
                 # fall back: place after everything seen so far (never conflicts)
-                base = gen_chain(src, pos + 200, nex)
+                base = gen_chain(src, pos + 200, nex, exon_len=exon_len, intron_len=intron_len)
                 if sep and not _self_ok(base, sep):
                     base = [base[0]]
             sites |= _sites(base)
@@ -537,3 +538,67 @@ def add_graph_noise(src, sc, truth, p, name_prefix="r"):
                          polyt=src.int(20, 30) if strand == "-" and src.bool(0.5) else 0)
         sc["reads"].append(nr)
         truth[nm] = {"kind": "noise", "noise": kind}
+
+
+def noisy_read(src, name, chrom, strand, exons, kind, mapq=60):
+    """Reads with alignment artefacts beyond delta (C14 generator).  Returns read or None if not applicable."""
+    ex = [list(e) for e in exons]
+    n = len(ex)
+    mm = None
+    if kind == "shift":
+        if n < 2:
+            return None
+        i = src.int(0, n - 2)
+        d = src.int(-30, 30)
+        same = src.bool(0.5)
+        shifts = [(0, 0)] * (n - 1)
+        shifts[i] = (d, d if same else src.int(-30, 30))
+        ex = R.jitter_blocks(ex, shifts)
+        if ex is None or any(b[1] - b[0] < 8 for b in ex):
+            return None
+    elif kind == "skipmicro":
+        cand = [i for i in range(1, n - 1) if ex[i][1] - ex[i][0] + 1 <= 100]
+        if not cand:
+            return None
+        i = src.choice(cand)
+        ex = ex[:i] + ex[i + 1:]
+    elif kind == "faketerm":
+        ln = src.int(8, 40)
+        if src.bool(0.5):
+            gap = src.int(60, 600)
+            s = ex[0][0] - gap - ln
+            if s < 10:
+                return None
+            ex = [[s, s + ln - 1]] + ex
+        else:
+            gap = src.int(60, 600)
+            s = ex[-1][1] + gap + 1
+            ex = ex + [[s, s + ln - 1]]
+    elif kind == "microir":
+        cand = [i for i in range(n - 1) if ex[i + 1][0] - ex[i][1] - 1 <= 50]
+        if not cand:
+            return None
+        i = src.choice(cand)
+        ex = ex[:i] + [[ex[i][0], ex[i + 1][1]]] + ex[i + 2:]
+    elif kind == "mmjunction":
+        if n < 2:
+            return None
+        i = src.int(0, n - 2)
+        d = src.int(-6, 6)
+        shifts = [(0, 0)] * (n - 1)
+        shifts[i] = (d, d)
+        ex2 = R.jitter_blocks(ex, shifts)
+        if ex2 is None or any(b[1] - b[0] < 8 for b in ex2):
+            return None
+        ex = ex2
+        # mismatches right before the shifted donor
+        off = sum(b[1] - b[0] + 1 for b in ex[:i + 1])
+        mm = [off - k for k in range(1, src.int(2, 4))]
+    else:
+        return None
+    polya = src.int(20, 30) if src.bool(0.6) else 0
+    r = R.make_read(name, chrom, ex, flag=16 if strand == "-" else 0, mapq=mapq,
+                    polya=polya if strand == "+" else 0, polyt=polya if strand == "-" else 0)
+    if mm:
+        r["mm"] = [o + (polya if strand == "-" else 0) for o in mm]
+    return r
